@@ -144,7 +144,12 @@ def body_cf_detector(ctx, rank):
         truth[var] = dict(
             lat=Or(u._where(lambda v: v in lat_units), s == 'latitude', ax == 'Y') if ctx.symbolic else (u in lat_units or s == 'latitude' or ax == 'Y'),
             lon=Or(u._where(lambda v: v in lon_units), s == 'longitude', ax == 'X') if ctx.symbolic else (u in lon_units or s == 'longitude' or ax == 'X'))
-    if rank == 1:
+    if rank in (0, '01'):
+        # coordinates that have become scalars (dataset.isel(lat=0)) still carry their CF attributes: no grid is left
+        ds = xarray.Dataset({'a': ((), 10.0, attrs['a']),
+                             'b': ((), 100.0, attrs['b']) if rank == 0 else (('x',), numpy.arange(nx, dtype=float), attrs['b']),
+                             'temp': (('y', 'x'), numpy.zeros((ny, nx)))})
+    elif rank == 1:
         ds = xarray.Dataset({'a': (('y',), numpy.arange(ny, dtype=float), attrs['a']), 'b': (('x',), numpy.arange(nx, dtype=float), attrs['b']),
                              'temp': (('y', 'x'), numpy.zeros((ny, nx)))})
     else:
@@ -153,6 +158,11 @@ def body_cf_detector(ctx, rank):
     has_lat = Or(truth['a']['lat'], truth['b']['lat'])
     has_lon = Or(truth['a']['lon'], truth['b']['lon'])
     g1, g2 = CFGrid1D.check_dataset(ds), CFGrid2D.check_dataset(ds)
+    if rank in (0, '01'):
+        # (a variable that is both the latitude and the longitude candidate is its own business: require distinct roles)
+        ctx.check(Implies(And(truth['a']['lat'], truth['b']['lon']), And(g1 is None, g2 is None)),
+                  'scalar latitude / longitude coordinates do not make a CF grid')
+        return
     ctx.check(Iff((g1 if rank == 1 else g2) is not None, And(has_lat, has_lon)),
               'a CF grid is detected exactly when a latitude and a longitude coordinate can be identified')
     ctx.check((g2 if rank == 1 else g1) is None, 'coordinate rank separates 1-D from 2-D CF grids')
@@ -300,6 +310,8 @@ def cases(tier):
                 yield Case(f'registry:m{n_manual}:e{n_entry}:order{order}:same-qualname', body_registry,
                            dict(n_manual=n_manual, n_entry=n_entry, order=order, rename=False), max_paths=20000, split=16)
     yield Case('detector:ugrid', body_ugrid_detector, patches=_ugrid_patches, max_paths=5000)
+    for rank in (0, '01'):
+        yield Case(f'detector:cf-scalar{rank}', body_cf_detector, dict(rank=rank), max_paths=100000, split=32)
     for rank in (1, 2):
         yield Case(f'detector:cf{rank}d', body_cf_detector, dict(rank=rank), max_paths=100000, split=32)
     for kind in ('cf1d', 'cf2d', 'shoc_simple', 'shoc_standard', 'ugrid_marker', 'ugrid_mesh', 'nothing'):
